@@ -32,6 +32,9 @@
 #include <opm/io/eclipse/rst/header.hpp>
 #include <opm/io/eclipse/rst/well.hpp>
 #include <opm/io/eclipse/rst/connection.hpp>
+#include <opm/io/eclipse/rst/state.hpp>
+#include <opm/io/eclipse/ERst.hpp>
+#include <opm/io/eclipse/RestartFileView.hpp>
 
 #include <opm/input/eclipse/Deck/Deck.hpp>
 #include <opm/input/eclipse/Parser/Parser.hpp>
@@ -723,7 +726,7 @@ int run_corr(uint64_t seed, const std::string& tier, const std::string& outdir)
     vh::Rng rng(seed);
     corr_enums(sink);
     corr_windows(rng, sink, tier == "thorough" ? 2000 : 300);
-    const int ncases = tier == "thorough" ? 160 : 24;
+    const int ncases = tier == "thorough" ? 400 : 24;
     for (int c = 0; c < ncases; ++c) corr_case(rng, sink, c);
     sink.writeStats(outdir + "/stats.json");
     return 0;
@@ -868,6 +871,55 @@ void prop_case(vh::Rng& rng, vh::PropLog& log, std::map<std::string, long>& stat
             (void) well; (void) us;
         }
         stats["steps_loaded"]++;
+
+        // ---- the schedule side, at the level the restarted Schedule is built from: RstState vs the original Schedule
+        try {
+            auto erst = std::make_shared<Opm::EclIO::ERst>(fname);
+            auto view = std::make_shared<Opm::EclIO::RestartFileView>(erst, step);
+            const auto state = Opm::RestartIO::RstState::load(view, cs.es.runspec(), Opm::Parser{}, &cs.grid);
+            const double rf = 5e-7;   // SWEL / SCON are single precision whatever write_double says
+            for (const auto& wname : cs.sched.wellNames(step - 1)) {
+                const auto& well = cs.sched.getWell(wname, step - 1);
+                const auto& rw = state.get_well(wname);
+                auto chk = [&](const char* what, bool ok, const std::string& detail = "") {
+                    if (ok) log.ok(); else log.fail(std::string("rst-well.") + what, at + " well=" + wname + " " + detail); };
+                chk("head", rw.ij[0] == well.getHeadI() && rw.ij[1] == well.getHeadJ());
+                chk("group", rw.group == well.groupName(), rw.group);
+                chk("xflow", rw.allow_xflow == well.getAllowCrossFlow());
+                chk("efficiency_factor", close(rw.efficiency_factor, well.getEfficiencyFactor(), rf), vh::hexF64(rw.efficiency_factor));
+                chk("drainage_radius", close(rw.drainage_radius, well.getDrainageRadius(), rf, 1e-30), vh::hexF64(rw.drainage_radius) + " vs " + vh::hexF64(well.getDrainageRadius()));
+                if (well.hasRefDepth()) chk("datum_depth", close(rw.datum_depth, well.getRefDepth(), rf), vh::hexF64(rw.datum_depth) + " vs " + vh::hexF64(well.getRefDepth()));
+                chk("producer", rw.wtype.producer() == well.isProducer());
+                chk("gr_scaling", close(rw.grupcon_gr_scaling, well.getGuideRateScalingFactor(), rf));
+                const auto xwi = sv.dyn.xw.find(wname);
+                const auto out = well.getConnections().output(cs.grid);
+                chk("nconn", rw.connections.size() == out.size());
+                for (std::size_t c = 0; c < out.size() && c < rw.connections.size(); ++c) {
+                    const auto& conn = *out[c]; const auto& rc = rw.connections[c];
+                    chk("conn.ijk", rc.ijk[0] == conn.getI() && rc.ijk[1] == conn.getJ() && rc.ijk[2] == conn.getK());
+                    chk("conn.state", (rc.state == Opm::Connection::State::OPEN) == (conn.state() == Opm::Connection::State::OPEN));
+                    chk("conn.dir", rc.dir == conn.dir());
+                    chk("conn.depth", close(rc.depth, conn.depth(), rf), vh::hexF64(rc.depth) + " vs " + vh::hexF64(conn.depth()));
+                    chk("conn.diameter", close(rc.diameter, 2 * conn.rw(), rf));
+                    chk("conn.kh", close(rc.kh, conn.Kh(), rf), vh::hexF64(rc.kh) + " vs " + vh::hexF64(conn.Kh()));
+                    chk("conn.skin", close(rc.skin_factor, conn.skinFactor(), rf, 1e-30));
+                    chk("conn.length", close(rc.length, conn.connectionLength(), rf, 1e-30));
+                    const Opm::data::Connection* xc = xwi == sv.dyn.xw.end() ? nullptr : xwi->second.find_connection(conn.global_index());
+                    chk("conn.cf", close(rc.cf, xc ? xc->trans_factor / xc->compact_mult : conn.CF(), rf), vh::hexF64(rc.cf));
+                    if (xc) {
+                        chk("conn.pressure", close(rc.pressure, xc->pressure, 1e-12));
+                        chk("conn.oil_rate", close(rc.oil_rate, -xc->rates.get(Opm::data::Rates::opt::oil, 0.0), 1e-12, 1e-300));
+                    }
+                }
+                if (xwi != sv.dyn.xw.end()) {
+                    chk("flow_bhp", close(rw.flow_bhp, xwi->second.bhp, 1e-12));
+                    chk("thp", close(rw.thp, xwi->second.thp, 1e-12));
+                    chk("oil_rate", close(rw.oil_rate, -xwi->second.rates.get(Opm::data::Rates::opt::oil, 0.0), 1e-12, 1e-300));
+                }
+            }
+        } catch (const std::exception& e) {
+            log.fail("rststate-throws." + tag, std::string("step ") + std::to_string(step) + ": " + e.what());
+        }
     }
     std::filesystem::remove_all(workdir);
 }
@@ -877,7 +929,7 @@ int run_prop(uint64_t seed, const std::string& tier, const std::string& outdir)
     vh::PropLog log(outdir + "/prop.txt");
     vh::Rng rng(seed * 7919 + 17);
     std::map<std::string, long> stats;
-    const int rounds = tier == "thorough" ? 6 : 1;
+    const int rounds = tier == "thorough" ? 12 : 1;
     for (int r = 0; r < rounds; ++r)
         for (int v = 0; v < 32; ++v) prop_case(rng, log, stats, v, outdir + "/rst_work");
     std::ofstream f(outdir + "/prop_stats.json");
